@@ -417,6 +417,16 @@ Definition mrinit (n : nat) (P : list (list msg)) : mring :=
 Definition mrquiet (nthreads : nat) (m : mring) : bool :=
   forallb (fun t => match wpcs m t, wmsgs m t with WIdle, [] => true | _, _ => false end) (seq 0 nthreads).
 
+(* Part 3c.  AsynchronousLoggers.Close (log.go:100-110): err1 := l.eWriter.Close(); err2 := l.oWriter.Close(); then the
+   first error is returned.  [both] is the GENERATED fact (Gen.v, async_close_closes_both) that both Close calls
+   are made unconditionally; a Close that returned after a failing first call would leave the other ring undrained.
+   Closing a DiodeWriter drains its ring (diode.Writer.Close: cancel, wait for the poller, which delivers what is
+   still stored). *)
+Definition async_close (both : bool) (e_close_fails o_close_fails : bool) : bool * bool :=   (* (error side closed, output side closed) *)
+  if both then (true, true) else (true, negb e_close_fails).
+Definition ring_after_close (closed : bool) (g : ring) : ring :=
+  if closed then drain (rw g - rr g) g else g.
+
 (* Scripted runs (correspondence): the harness holds the reader goroutine inside the slow writer's Write ("gate").
    SSet x  = one producer performs Write(x) (-> Set); if the reader is waiting for data it takes at once.
    SRelease = the Write in progress is allowed to return; the reader then calls Next again. *)
